@@ -1,11 +1,713 @@
-//! C33 (not built yet)
-use crate::report::{Disagreement, Run};
-use serde_json::Value;
+//! C33 Cell-attached metadata follows its cells.
+//!
+//! Workbook: a 5x4 grid where cell (r,c) holds the text `T_r_c` and the link `https://u/r_c`; four conditional formats
+//! with Formula rules over ranges of the grid, each with two *shadow* formula cells (one in a scratch column in the
+//! anchor's row, one in a scratch row in the anchor's column) holding the same formula text.
+//! Space: every word of length <= 2 (thorough: 3 over a reduced alphabet) over {insert / delete / move rows and
+//! columns through the grid, cut-paste of row bands, column bands and blocks, clear contents}. The last step of every
+//! word is judged (the prefix must have been judged clean in the shorter words).
+//! Oracle (self-referential): tag and link carry the same index wherever they are, no link without its tag; a
+//! conditional format covers exactly the cells whose tags it covered (when these still form a rectangle); its rule
+//! formula denotes the cells the shadow formulas denote; clear contents removes the links of the cleared cells and
+//! undo brings tags and links back.
 
-pub fn run(run: &mut Run) {
-    run.machinery_errors.push("C33: check not built yet".into());
+use crate::ops::Op;
+use crate::report::{Disagreement, Run};
+use crate::structural::{Axis, Den, Reader, SOp};
+use ironcalc_base::cf_types::{CfRule, CfRuleInput};
+use ironcalc_base::expressions::types::Area;
+use ironcalc_base::types::Link;
+use ironcalc_base::UserModel;
+use serde::{Deserialize, Serialize};
+use serde_json::{json, Value};
+use std::collections::{BTreeMap, BTreeSet};
+use std::sync::OnceLock;
+
+const ROWS: i32 = 5;
+const COLS: i32 = 4;
+
+const CFS: [(&str, &str, (i32, i32)); 4] = [
+    ("A1:A3", "A1<>$B$2", (1, 1)),
+    ("B2:C4", "$A2=B$1", (2, 2)),
+    ("D5", "COUNTA(A1:B2)>0", (5, 4)),
+    ("A4:D4", "$D$5<>\"\"", (4, 1)),
+];
+
+#[derive(Clone, Debug, Serialize, Deserialize, PartialEq)]
+pub enum COp {
+    S(Axis, SOp),
+    /// cut (r1,c1,r2,c2) and paste at (row, column)
+    Cut(i32, i32, i32, i32, i32, i32),
+    /// clear contents (row, column, height, width)
+    Clear(i32, i32, i32, i32),
 }
 
-pub fn replay(_case: &Value) -> Vec<Disagreement> {
-    vec![]
+impl COp {
+    fn kind(&self) -> String {
+        match self {
+            COp::S(a, o) => format!("{}-{}", o.kind(), a.name()),
+            COp::Cut(..) => "cut-paste".into(),
+            COp::Clear(..) => "clear-contents".into(),
+        }
+    }
+    fn apply(&self, um: &mut UserModel) -> Result<(), String> {
+        match self {
+            COp::S(axis, op) => match (axis, *op) {
+                (Axis::Rows, SOp::Insert { p, k }) => um.insert_rows(0, p, k),
+                (Axis::Cols, SOp::Insert { p, k }) => um.insert_columns(0, p, k),
+                (Axis::Rows, SOp::Delete { p, k }) => um.delete_rows(0, p, k),
+                (Axis::Cols, SOp::Delete { p, k }) => um.delete_columns(0, p, k),
+                (Axis::Rows, SOp::Move { s, n, d }) => um.move_rows_action(0, s, n, d),
+                (Axis::Cols, SOp::Move { s, n, d }) => um.move_columns_action(0, s, n, d),
+            },
+            COp::Cut(r1, c1, r2, c2, tr, tc) => Op::Paste(0, *r1, *c1, *r2, *c2, 0, *tr, *tc, true).apply(um),
+            COp::Clear(r, c, h, w) => um.range_clear_contents(&Area {
+                sheet: 0,
+                row: *r,
+                column: *c,
+                height: *h,
+                width: *w,
+            }),
+        }
+    }
+}
+
+pub fn alphabet(full: bool) -> Vec<COp> {
+    let mut v = vec![];
+    let kmax = 2;
+    for (axis, n) in [(Axis::Rows, ROWS), (Axis::Cols, COLS)] {
+        for p in 1..=n + 1 {
+            for k in 1..=kmax {
+                if full || (k == 1 && p <= 3) || (k == 2 && p == 2) {
+                    v.push(COp::S(axis, SOp::Insert { p, k }));
+                }
+            }
+        }
+        for p in 1..=n {
+            for k in 1..=kmax {
+                if full || (k == 1 && p <= 3) || (k == 2 && p == 2) {
+                    v.push(COp::S(axis, SOp::Delete { p, k }));
+                }
+            }
+        }
+        for s in 1..n {
+            for nn in 1..=2 {
+                for d in [1i32, -1, 2, -2] {
+                    if s + d < 1 {
+                        continue;
+                    }
+                    if full || (nn == 1 && d.abs() == 1 && s <= 2) || (nn == 2 && d == 2 && s == 1) {
+                        v.push(COp::S(axis, SOp::Move { s, n: nn, d }));
+                    }
+                }
+            }
+        }
+    }
+    // cut-paste: row bands over all used columns, column bands over all used rows, blocks
+    let w = 12;
+    let h = 12;
+    let bands: Vec<COp> = vec![
+        COp::Cut(1, 1, 1, w, 2, 1),
+        COp::Cut(1, 1, 1, w, 7, 1),
+        COp::Cut(2, 1, 3, w, 1, 1),
+        COp::Cut(2, 1, 3, w, 3, 1),
+        COp::Cut(2, 1, 3, w, 6, 1),
+        COp::Cut(4, 1, 5, w, 1, 1),
+        COp::Cut(4, 1, 5, w, 6, 1),
+        COp::Cut(1, 1, h, 1, 1, 2),
+        COp::Cut(1, 1, h, 1, 1, 5),
+        COp::Cut(1, 2, h, 3, 1, 1),
+        COp::Cut(1, 2, h, 3, 1, 3),
+        COp::Cut(1, 2, h, 3, 1, 5),
+        COp::Cut(1, 4, h, 4, 1, 1),
+        COp::Cut(1, 4, h, 4, 1, 5),
+    ];
+    let blocks: Vec<COp> = vec![
+        COp::Cut(1, 1, 1, 1, 2, 2),
+        COp::Cut(1, 1, 1, 1, 7, 5),
+        COp::Cut(1, 1, 2, 2, 2, 2),
+        COp::Cut(1, 1, 2, 2, 4, 3),
+        COp::Cut(1, 1, 2, 2, 6, 1),
+        COp::Cut(2, 2, 4, 3, 1, 1),
+        COp::Cut(2, 2, 4, 3, 2, 3),
+        COp::Cut(1, 1, 3, 1, 3, 1),
+        COp::Cut(1, 1, 3, 1, 1, 4),
+        COp::Cut(5, 4, 5, 4, 6, 5),
+    ];
+    if full {
+        v.extend(bands);
+        v.extend(blocks);
+    } else {
+        v.extend(bands.into_iter().step_by(3));
+        v.extend(blocks.into_iter().step_by(3));
+    }
+    v.push(COp::Clear(1, 1, 1, 1));
+    v.push(COp::Clear(2, 2, 1, 1));
+    if full {
+        v.push(COp::Clear(1, 1, 2, 2));
+        v.push(COp::Clear(4, 1, 1, 4));
+    }
+    v
+}
+
+fn tag(r: i32, c: i32) -> String {
+    format!("T_{}_{}", r, c)
+}
+fn url_of_tag(t: &str) -> String {
+    format!("https://u/{}", &t[2..])
+}
+
+fn base_bytes() -> &'static [u8] {
+    static B: OnceLock<Vec<u8>> = OnceLock::new();
+    B.get_or_init(|| {
+        let mut um = UserModel::new_empty("c33", "en", "UTC", "en").expect("new_empty");
+        um.pause_evaluation();
+        for r in 1..=ROWS {
+            for c in 1..=COLS {
+                um.set_user_input(0, r, c, &tag(r, c)).expect("input");
+                um.set_cell_link(
+                    0,
+                    r,
+                    c,
+                    Link::External {
+                        target: url_of_tag(&tag(r, c)),
+                        tooltip: None,
+                    },
+                    None,
+                )
+                .expect("link");
+            }
+        }
+        for (k, (range, formula, (ar, ac))) in CFS.iter().enumerate() {
+            um.set_user_input(0, *ar, 6 + k as i32, &format!("=IF(FALSE,\"cf{}c\",{})", k, formula))
+                .expect("shadow");
+            um.set_user_input(0, 8 + k as i32, *ac, &format!("=IF(FALSE,\"cf{}r\",{})", k, formula))
+                .expect("shadow");
+            let mut dxf = ironcalc_base::types::Dxf::default();
+            dxf.font = Some(ironcalc_base::types::DxfFont {
+                b: Some(true),
+                ..Default::default()
+            });
+            um.add_conditional_formatting(
+                0,
+                range,
+                CfRuleInput::Formula {
+                    formula: formula.to_string(),
+                    format: dxf,
+                    stop_if_true: false,
+                },
+            )
+            .expect("cf");
+        }
+        um.resume_evaluation();
+        um.evaluate();
+        um.to_bytes()
+    })
+}
+
+#[derive(Clone, PartialEq, Debug, Default)]
+pub struct Scan {
+    /// position -> tag text
+    pub tags: BTreeMap<(i32, i32), String>,
+    /// position -> link target
+    pub links: BTreeMap<(i32, i32), String>,
+    /// storage order: (range, formula)
+    pub cfs: Vec<(String, String)>,
+    /// marker -> (row, column, formula text)
+    pub shadows: BTreeMap<String, (i32, i32, String)>,
+}
+
+pub fn scan(um: &UserModel) -> Scan {
+    let mut s = Scan::default();
+    let m = um.get_model();
+    let ws = &m.workbook.worksheets[0];
+    let mut rows: Vec<i32> = ws.sheet_data.keys().copied().collect();
+    rows.sort_unstable();
+    for r in rows {
+        let mut cols: Vec<i32> = ws.sheet_data[&r].keys().copied().collect();
+        cols.sort_unstable();
+        for c in cols {
+            let t = um.get_cell_content(0, r, c).unwrap_or_default();
+            if t.starts_with("T_") {
+                s.tags.insert((r, c), t);
+            } else if t.starts_with("=IF(FALSE,\"cf") {
+                let marker = t[11..].split('"').next().unwrap_or("").to_string();
+                s.shadows.insert(marker, (r, c, t));
+            }
+        }
+    }
+    for l in um.get_links_list(0).unwrap_or_default() {
+        let target = match &l.link {
+            Link::External { target, .. } => target.clone(),
+            Link::Internal { location, .. } => format!("internal:{}", location),
+        };
+        s.links.insert((l.row, l.column), target);
+    }
+    let mut list = um.get_conditional_formatting_list(0).unwrap_or_default();
+    list.sort_by_key(|v| v.index);
+    for v in list {
+        let f = match &v.cf_rule {
+            CfRule::Formula { formula, .. } => formula.clone(),
+            other => format!("{:?}", other),
+        };
+        s.cfs.push((v.range.clone(), f));
+    }
+    s
+}
+
+/// cells of a space-separated sqref
+fn sqref_cells(range: &str) -> Option<Vec<(i32, i32, i32, i32)>> {
+    let mut out = vec![];
+    for part in range.split_whitespace() {
+        let mut it = part.split(':');
+        let a = parse_a1(it.next()?)?;
+        let b = match it.next() {
+            Some(x) => parse_a1(x)?,
+            None => a,
+        };
+        out.push((a.0.min(b.0), a.1.min(b.1), a.0.max(b.0), a.1.max(b.1)));
+    }
+    Some(out)
+}
+
+fn parse_a1(s: &str) -> Option<(i32, i32)> {
+    let s = s.replace('$', "");
+    let letters: String = s.chars().take_while(|c| c.is_ascii_alphabetic()).collect();
+    let digits: String = s.chars().skip(letters.len()).collect();
+    if letters.is_empty() || digits.is_empty() {
+        return None;
+    }
+    let mut c = 0i32;
+    for ch in letters.to_uppercase().chars() {
+        c = c * 26 + (ch as i32 - 'A' as i32 + 1);
+    }
+    Some((digits.parse().ok()?, c))
+}
+
+fn tags_in(scan: &Scan, rects: &[(i32, i32, i32, i32)]) -> BTreeSet<String> {
+    scan.tags
+        .iter()
+        .filter(|((r, c), _)| rects.iter().any(|(r1, c1, r2, c2)| r >= r1 && r <= r2 && c >= c1 && c <= c2))
+        .map(|(_, t)| t.clone())
+        .collect()
+}
+
+/// tag/link consistency of one state
+fn consistency(s: &Scan) -> Vec<(String, String)> {
+    let mut out = vec![];
+    for (pos, t) in &s.tags {
+        match s.links.get(pos) {
+            None => out.push(("tag-lost-its-link".to_string(), format!("{} at R{}C{} has no link", t, pos.0, pos.1))),
+            Some(l) if *l != url_of_tag(t) => out.push((
+                "tag-carries-the-link-of-another-cell".to_string(),
+                format!("{} at R{}C{} has link {}", t, pos.0, pos.1, l),
+            )),
+            _ => {}
+        }
+    }
+    for (pos, l) in &s.links {
+        if !s.tags.contains_key(pos) {
+            out.push(("link-without-its-tag".to_string(), format!("link {} at R{}C{} where no tag is", l, pos.0, pos.1)));
+        }
+    }
+    out
+}
+
+/// how the range lies relative to the operation
+fn relation(op: &COp, rects: &[(i32, i32, i32, i32)]) -> &'static str {
+    if rects.len() != 1 {
+        return "multi-part";
+    }
+    let (r1, c1, r2, c2) = rects[0];
+    match op {
+        COp::S(axis, sop) => {
+            let (i, j) = match axis {
+                Axis::Rows => (r1, r2),
+                Axis::Cols => (c1, c2),
+            };
+            match crate::structural::map_range(sop, i, j, axis.last()) {
+                crate::structural::RangeFate::Exact(..) => "whole",
+                crate::structural::RangeFate::Partial(..) => "loses-an-end",
+                crate::structural::RangeFate::AllGone => "all-deleted",
+                crate::structural::RangeFate::Unjudged => "straddles-block-or-band",
+            }
+        }
+        COp::Cut(a1, b1, a2, b2, tr, tc) => {
+            let inside = r1 >= *a1 && r2 <= *a2 && c1 >= *b1 && c2 <= *b2;
+            let disjoint = r2 < *a1 || r1 > *a2 || c2 < *b1 || c1 > *b2;
+            let (t2r, t2c) = (tr + (a2 - a1), tc + (b2 - b1));
+            let hit = !(r2 < *tr || r1 > t2r || c2 < *tc || c1 > t2c);
+            match (inside, disjoint, hit) {
+                (true, _, false) => "inside-cut-area",
+                (true, _, true) => "inside-cut-area-and-under-target",
+                (_, true, false) => "outside",
+                (_, true, true) => "under-paste-target",
+                (false, false, false) => "partly-in-cut-area",
+                (false, false, true) => "partly-in-cut-area-and-under-target",
+            }
+        }
+        COp::Clear(..) => "clear",
+    }
+}
+
+pub struct Stats {
+    pub judged_ranges: u64,
+    pub judged_formulas: u64,
+    pub unspecified: u64,
+}
+
+/// Judges the step `pre --op--> post` (um is in the post state; for Clear also undo is exercised).
+fn judge_step(um: &mut UserModel, pre: &Scan, op: &COp, case: &Value, stats: &mut Stats) -> Vec<Disagreement> {
+    let mut ds = vec![];
+    let post = scan(um);
+    let kind = op.kind();
+    let mut push = |sig: String, detail: String| {
+        ds.push(Disagreement {
+            sig,
+            case: case.clone(),
+            detail,
+        })
+    };
+    // 1. tags and links
+    for (cls, detail) in consistency(&post) {
+        push(format!("{} {}", kind, cls), detail);
+    }
+    // 2. conditional formats
+    if post.cfs.len() != pre.cfs.len() {
+        push(
+            format!("{} cf-count", kind),
+            format!("{} conditional formats before, {} after", pre.cfs.len(), post.cfs.len()),
+        );
+    } else {
+        let alive_all: BTreeSet<&String> = post.tags.values().collect();
+        let mut reader = Reader::new(um.get_model());
+        for k in 0..pre.cfs.len() {
+            let (pre_range, _) = &pre.cfs[k];
+            let (post_range, post_formula) = &post.cfs[k];
+            let (Some(pre_rects), Some(post_rects)) = (sqref_cells(pre_range), sqref_cells(post_range)) else {
+                push(format!("{} cf-range-unreadable", kind), format!("{} -> {}", pre_range, post_range));
+                continue;
+            };
+            let s_pre = tags_in(pre, &pre_rects);
+            if s_pre.is_empty() {
+                // the format already covers no tagged cell (left over by an earlier step): nothing to follow
+                stats.unspecified += 1;
+                continue;
+            }
+            let alive: BTreeSet<String> = s_pre.iter().filter(|t| alive_all.contains(t)).cloned().collect();
+            let t_post = tags_in(&post, &post_rects);
+            // do the surviving cells still form a rectangle?
+            let pos: Vec<(i32, i32)> = post.tags.iter().filter(|(_, t)| alive.contains(*t)).map(|(p, _)| *p).collect();
+            // the surviving cells form a full rectangle; an insertion may stretch it by the blank rows/columns it adds
+            let full_rect = |pos: &[(i32, i32)], gaps: bool| -> bool {
+                if pos.is_empty() {
+                    return true;
+                }
+                let rs: BTreeSet<i32> = pos.iter().map(|p| p.0).collect();
+                let cs: BTreeSet<i32> = pos.iter().map(|p| p.1).collect();
+                let (r1, r2) = (*rs.iter().next().unwrap(), *rs.iter().last().unwrap());
+                let (c1, c2) = (*cs.iter().next().unwrap(), *cs.iter().last().unwrap());
+                pos.len() == rs.len() * cs.len()
+                    && (gaps || (rs.len() as i32 == r2 - r1 + 1 && cs.len() as i32 == c2 - c1 + 1))
+            };
+            let pre_pos: Vec<(i32, i32)> = pre.tags.iter().filter(|(_, t)| s_pre.contains(*t)).map(|(p, _)| *p).collect();
+            let is_insert = matches!(op, COp::S(_, SOp::Insert { .. }));
+            // cells destroyed by pasting over them: what becomes of their format is not stated
+            // (likewise for cells pasted onto blank cells of the range)
+            let overwritten = matches!(op, COp::Cut(..)) && (alive.len() < s_pre.len() || relation(op, &pre_rects).contains("target"));
+            let rectangular = !overwritten
+                && full_rect(&pos, is_insert && full_rect(&pre_pos, false))
+                && (pos.is_empty() || {
+                    let r1 = pos.iter().map(|p| p.0).min().unwrap();
+                    let r2 = pos.iter().map(|p| p.0).max().unwrap();
+                    let c1 = pos.iter().map(|p| p.1).min().unwrap();
+                    let c2 = pos.iter().map(|p| p.1).max().unwrap();
+                    tags_in(&post, &[(r1, c1, r2, c2)]) == alive
+                });
+            if !rectangular {
+                stats.unspecified += 1;
+            } else {
+                stats.judged_ranges += 1;
+                if t_post != alive {
+                    let lost = alive.difference(&t_post).count();
+                    let extra = t_post.difference(&alive).count();
+                    let shape = match (lost > 0, extra > 0) {
+                        (true, true) => "covers-other-cells-instead",
+                        (true, false) => "lost-cells",
+                        (false, true) => "covers-extra-cells",
+                        _ => "",
+                    };
+                    let fate = if alive.is_empty() {
+                        "all-cells-gone"
+                    } else if alive.len() < s_pre.len() {
+                        "some-cells-gone"
+                    } else {
+                        "all-cells-alive"
+                    };
+                    push(
+                        format!(
+                            "{} cf-range rel={} range-text-{}",
+                            kind,
+                            relation(op, &pre_rects),
+                            if pre_range == post_range { "unchanged" } else { "changed" }
+                        ),
+                        format!(
+                            "conditional format {} covered {:?} in `{}`; after {:?} the surviving cells are {:?} but `{}` covers {:?} ({}, {})",
+                            k, s_pre, pre_range, op, alive, post_range, t_post, fate, shape
+                        ),
+                    );
+                    continue;
+                }
+            }
+            // formula: only when the anchor cell is still the anchor
+            let pre_anchor = (pre_rects[0].0, pre_rects[0].1);
+            let post_anchor = (post_rects[0].0, post_rects[0].1);
+            let same_anchor = match (pre.tags.get(&pre_anchor), post.tags.get(&post_anchor)) {
+                (Some(a), Some(b)) => a == b,
+                _ => false,
+            };
+            if !same_anchor {
+                stats.unspecified += 1;
+                continue;
+            }
+            let in_area = |p: (i32, i32)| match op {
+                COp::Cut(r1, c1, r2, c2, ..) => p.0 >= *r1 && p.0 <= *r2 && p.1 >= *c1 && p.1 <= *c2,
+                _ => false,
+            };
+            // every surviving shadow must agree (if the cell formulas disagree among themselves that is the business of
+            // C12-C16), and at least one must have played the same role as the anchor (cut together with it or left
+            // behind like it)
+            let mut shadow_dens: Vec<(String, Vec<Den>)> = vec![];
+            let mut same_role = false;
+            for suffix in ["c", "r"] {
+                let marker = format!("cf{}{}", k, suffix);
+                if let (Some(before), Some((r, c, text))) = (pre.shadows.get(&marker), post.shadows.get(&marker)) {
+                    same_role |= in_area((before.0, before.1)) == in_area(pre_anchor);
+                    let mut d = reader.dens(text, 0, *r, *c);
+                    d.retain(|x| !matches!(x, Den::NoRef));
+                    shadow_dens.push((text.clone(), d));
+                }
+            }
+            // for cut-paste both shadows must have survived: a moved cell formula alone is not a trusted reference
+            // (overlapping cuts displace it twice, see C16)
+            let enough = if matches!(op, COp::Cut(..)) { shadow_dens.len() == 2 } else { !shadow_dens.is_empty() };
+            if !same_role || !enough || shadow_dens.iter().any(|d| d.1 != shadow_dens[0].1) {
+                stats.unspecified += 1;
+                continue;
+            }
+            stats.judged_formulas += 1;
+            let got = reader.dens(post_formula, 0, post_anchor.0, post_anchor.1);
+            if got != shadow_dens[0].1 {
+                let idx = got
+                    .iter()
+                    .zip(shadow_dens[0].1.iter())
+                    .position(|(a, b)| a != b)
+                    .unwrap_or(got.len().min(shadow_dens[0].1.len()));
+                let (g, e) = (got.get(idx), shadow_dens[0].1.get(idx));
+                push(
+                    format!(
+                        "{} cf-formula differs-from-cell-formula expected={} got={}",
+                        kind,
+                        e.map(|d| d.class()).unwrap_or("nothing"),
+                        g.map(|d| d.class()).unwrap_or("nothing")
+                    ),
+                    format!(
+                        "conditional format {} (`{}`, anchor R{}C{}) has rule formula `{}` after {:?}; the cell holding the same formula is now `{}`",
+                        k, post_range, post_anchor.0, post_anchor.1, post_formula, op, shadow_dens[0].0
+                    ),
+                );
+            }
+        }
+    }
+    // 3. clear contents: links of the cleared cells gone (covered by consistency), every other pair intact, undo restores
+    if let COp::Clear(r, c, h, w) = op {
+        for (pos, t) in &pre.tags {
+            let inside = pos.0 >= *r && pos.0 < r + h && pos.1 >= *c && pos.1 < c + w;
+            if inside {
+                if post.links.contains_key(pos) {
+                    push(
+                        format!("{} link-survives-clear", kind),
+                        format!("{} at R{}C{} was cleared, its link is still there", t, pos.0, pos.1),
+                    );
+                }
+            } else if post.tags.get(pos) != Some(t) || post.links.get(pos) != pre.links.get(pos) {
+                push(
+                    format!("{} touches-cells-outside", kind),
+                    format!("{} at R{}C{} outside the cleared area changed", t, pos.0, pos.1),
+                );
+            }
+        }
+        match um.undo() {
+            Err(e) => push(format!("{} undo-error", kind), e),
+            Ok(()) => {
+                let back = scan(um);
+                if back.tags != pre.tags || back.links != pre.links {
+                    let lost: Vec<_> = pre.links.keys().filter(|p| !back.links.contains_key(p)).collect();
+                    push(
+                        format!(
+                            "{} undo-does-not-restore {}",
+                            kind,
+                            if back.tags != pre.tags { "contents" } else { "links" }
+                        ),
+                        format!("after undo of {:?}: links missing at {:?}", op, lost),
+                    );
+                }
+                let _ = um.redo();
+            }
+        }
+    }
+    ds
+}
+
+pub struct WordOut {
+    pub ds: Vec<Disagreement>,
+    pub changed: bool,
+    pub digest: u128,
+}
+
+/// Runs a word; judges its last step. None = an operation of the word was refused or the prefix is not clean.
+pub fn run_word(word: &[COp], stats: &mut Stats) -> Option<WordOut> {
+    let case = json!({ "word": word });
+    let mut um = UserModel::from_bytes(base_bytes(), "en").expect("from_bytes");
+    let n = word.len();
+    for (i, op) in word.iter().enumerate() {
+        let pre = if i + 1 == n { Some(scan(&um)) } else { None };
+        let r = crate::env::guarded(|| op.apply(&mut um));
+        match r {
+            Err(p) => {
+                if i + 1 < n {
+                    return None;
+                }
+                return Some(WordOut {
+                    ds: vec![Disagreement {
+                        sig: format!("panic {} at={}", op.kind(), p.split(" @ ").last().unwrap_or("")),
+                        case,
+                        detail: p,
+                    }],
+                    changed: false,
+                    digest: 0,
+                });
+            }
+            Ok(Err(_)) => return None,
+            Ok(Ok(())) => {}
+        }
+        if let Some(pre) = pre {
+            let ds = judge_step(&mut um, &pre, op, &case, stats);
+            let post = scan(&um);
+            let digest = crate::env::digest(&format!("{:?}", post));
+            return Some(WordOut {
+                ds,
+                changed: post != pre,
+                digest,
+            });
+        } else if !consistency(&scan(&um)).is_empty() {
+            // the prefix already broke tag/link consistency: reported by the shorter word
+            return None;
+        }
+    }
+    None
+}
+
+fn explore(run: &mut Run, alpha: &[COp], len: usize, outcomes: &mut BTreeSet<u128>) -> Value {
+    let a = alpha.len();
+    let prefixes = a.pow((len - 1) as u32);
+    let res = crate::env::par_units(prefixes, |u| {
+        let mut k = u;
+        let mut idx = vec![0usize; len - 1];
+        for i in (0..len - 1).rev() {
+            idx[i] = k % a;
+            k /= a;
+        }
+        let mut word: Vec<COp> = idx.iter().map(|i| alpha[*i].clone()).collect();
+        word.push(alpha[0].clone());
+        let mut outs = vec![];
+        let mut stats = Stats {
+            judged_ranges: 0,
+            judged_formulas: 0,
+            unspecified: 0,
+        };
+        let mut cut = 0u64;
+        for op in alpha {
+            *word.last_mut().unwrap() = op.clone();
+            match run_word(&word, &mut stats) {
+                Some(w) => outs.push(w),
+                None => cut += 1,
+            }
+        }
+        (outs, stats, cut)
+    });
+    let (mut words, mut cut, mut jr, mut jf, mut un) = (0u64, 0u64, 0u64, 0u64, 0u64);
+    for r in res {
+        match r {
+            Ok((outs, stats, c)) => {
+                cut += c;
+                jr += stats.judged_ranges;
+                jf += stats.judged_formulas;
+                un += stats.unspecified;
+                for w in outs {
+                    words += 1;
+                    if w.changed {
+                        run.nontrivial += 1;
+                    }
+                    outcomes.insert(w.digest);
+                    run.add_all(w.ds);
+                }
+            }
+            Err(e) => run.machinery_errors.push(e),
+        }
+    }
+    run.evaluations += words + cut;
+    run.traces += words;
+    run.transitions += words * len as u64;
+    run.states += words;
+    json!({"length": len, "alphabet_size": a, "words_judged": words, "words_cut_refused_or_dirty_prefix": cut,
+        "cf_ranges_judged": jr, "cf_formulas_judged": jf, "unspecified_non_rectangular_or_anchor_gone": un})
+}
+
+pub fn run(run: &mut Run) {
+    let thorough = run.tier.thorough();
+    let full = alphabet(true);
+    let small = alphabet(false);
+    let mut outcomes = BTreeSet::new();
+    let mut plans = vec![];
+    plans.push(explore(run, &full, 1, &mut outcomes));
+    plans.push(explore(run, &full, 2, &mut outcomes));
+    if thorough {
+        plans.push(explore(run, &small, 3, &mut outcomes));
+    }
+    run.distinct_outcomes = outcomes.len() as u64;
+    run.bound = json!({"plans": plans, "grid": "5x4 tagged linked cells", "conditional_formats": CFS.iter().map(|c| format!("{} {}", c.0, c.1)).collect::<Vec<_>>(),
+        "api": "UserModel", "hash_seed": crate::env::hash_seed()});
+    run.rule = "every word of the stated length over the alphabet (insert/delete/move rows and columns, cut-paste bands and blocks, clear contents), all operations accepted; the last step is judged; non-trivial = the last step changed tags, links, conditional formats or shadow cells".into();
+    run.sample(json!({"word": [full[0]]}));
+    run.sample(json!({"word": [full[30], full[full.len() - 8]]}));
+    run.sample(json!({"word": [full[full.len() - 1], full[3]]}));
+    run.assume("copy-paste is not judged (the statement speaks of cut and paste)");
+    run.assume("a conditional format whose surviving cells no longer form a rectangle is compared only when they do (counted as unspecified otherwise); its rule formula is compared with the shadow cell formulas only while the anchor cell is still the anchor, and for cut-paste only with shadows that were cut together with (or left behind like) the anchor");
+    run.assume("formulas are compared on the cells denoted (public parser), not on text");
+    run.assume("hash-map iteration order fixed by VERIF_HASH_SEED for this run (listed seed only)");
+}
+
+pub fn replay(case: &Value) -> Vec<Disagreement> {
+    let word: Vec<COp> = match serde_json::from_value(case["word"].clone()) {
+        Ok(w) => w,
+        Err(_) => return vec![],
+    };
+    let mut stats = Stats {
+        judged_ranges: 0,
+        judged_formulas: 0,
+        unspecified: 0,
+    };
+    run_word(&word, &mut stats).map(|w| w.ds).unwrap_or_default()
+}
+
+/// prints the state after every step (debugging aid for triage)
+pub fn dbg_word(word: &[COp]) {
+    let mut um = UserModel::from_bytes(base_bytes(), "en").expect("from_bytes");
+    println!("start {:#?}", scan(&um));
+    for op in word {
+        println!("{:?} -> {:?}", op, op.apply(&mut um));
+        let s = scan(&um);
+        println!("cfs {:?}\nshadows {:#?}\ntags {:?}", s.cfs, s.shadows, s.tags);
+    }
 }
